@@ -79,6 +79,12 @@ def witnesses():
     out.append((prog([assign("a", c(1)), assign("x", c(0))],
                      [("if", [(atom("a", "==", 0), [assign("x", add(v("x"), c(1)))])], None)]),
                 {}, "const-in-cond"))
+    # 20: simultaneous assignment inside a branch assigning a finite variable used in a later condition
+    out.append((prog([assign("c", c(0)), assign("f", c(0)), assign("x", c(0))],
+                     [assign("c", bern(F(1, 2))),
+                      ("if", [(atom("c", "==", 1), [("simult", [("f", P.det(c(1))), ("x", P.det(add(v("x"), c(1))))])])], None),
+                      ("if", [(atom("f", "==", 1), [assign("x", add(v("x"), c(2)))])], None)]),
+                {}, "simult-in-branch"))
     return out
 
 
@@ -149,9 +155,16 @@ def sh_goal_const(rng):
 
 def sh_simult_branch(rng):
     """simultaneous assignments inside branches"""
+    if rng.random() < 0.4:
+        # a finite variable assigned simultaneously inside a branch and used in a later condition
+        s1 = ("simult", [("f", P.det(c(rng.choice([0, 1])))), ("x", P.det(add(v("x"), c(1))))])
+        body = [assign("c", bern(rng.choice(PROBS))), assign("f", bern(rng.choice(PROBS))),
+                ("if", [(atom("c", "==", 1), [s1])], None),
+                ("if", [(atom("f", "==", 1), [assign("x", add(v("x"), c(2)))])], None)]
+        return prog([assign("c", c(0)), assign("f", c(0)), assign("x", c(0))], body), {}, "simult-in-branch"
     s1 = ("simult", [("x", P.det(v("y"))), ("y", P.det(v("x")))]) if rng.random() < 0.5 else \
-        ("simult", [("x", P.det(add(v("x"), v("y")))), ("y", P.det(v("x")))])
-    s2 = ("simult", [("x", P.det(add(v("x"), c(1)))), ("y", P.det(mul(c(rng.choice([1, 2, F(1, 2)])), v("y"))))])
+        ("simult", [("x", P.det(add(v("y"), c(1)))), ("y", P.det(v("x")))])
+    s2 = ("simult", [("x", P.det(add(v("x"), c(1)))), ("y", P.det(v("y")))])
     body = [assign("f", bern(rng.choice(PROBS))),
             ("if", [(atom("f", "==", 1), [s1])], [s2] if rng.random() < 0.7 else None)]
     if rng.random() < 0.3:
@@ -198,8 +211,10 @@ def sh_guard(rng):
 
 
 def sh_linear_cycle(rng):
+    """linear dependency cycles (rational eigenvalues, so that sympy's root finding stays cheap)"""
+    k = rng.choice([1, 2, F(1, 2)])
     body = [assign("f", bern(rng.choice(PROBS))),
-            ("simult", [("x", P.det(v("y"))), ("y", P.det(add(v("x"), mul(v("f"), v("y")))))])]
+            ("simult", [("x", P.det(add(mul(c(k), v("y")), v("f")))), ("y", P.det(mul(c(1 / F(k)), v("x"))))])]
     return prog([assign("f", c(0)), assign("x", c(1)), assign("y", c(1))], body), {}, "linear-cycle"
 
 
@@ -332,6 +347,26 @@ def choice_inside_branch(p):
     def rec(block, depth):
         for s in block:
             if s[0] == "assign" and s[2][0] == "choice" and len(s[2][1]) >= 2 and depth >= 1:
+                return True
+            if s[0] == "if":
+                for _, b in s[1]:
+                    if rec(b, depth + 1):
+                        return True
+                if s[2] and rec(s[2], depth + 1):
+                    return True
+        return False
+    return rec(p["body"], 0)
+
+
+def simult_in_branch_assigns_condition_variable(p):
+    cvars = set(gen.cond_vars(p["guard"]))
+    for s, _ in walk_ifs(p["body"]):
+        for cnd, _ in s[1]:
+            cvars |= gen.cond_vars(cnd)
+
+    def rec(block, depth):
+        for s in block:
+            if s[0] == "simult" and depth >= 1 and {x for x, _ in s[1]} & cvars:
                 return True
             if s[0] == "if":
                 for _, b in s[1]:
